@@ -126,7 +126,7 @@ def run_scenario(scn, want_events=True, twin_fin=None):
     Zf = np.array(scn["Z"], dtype=float)
     sub = lambda rws, role: (H.present_values(Zf[rws], roles[role]) if role in roles else Z[rws].copy())
     Xtr = sub(I_train, "train")
-    Ytr = np.array(scn["Y"], dtype=int)
+    Ytr = np.array(scn["Y"], dtype=int) + int(scn.get("label_offset", 0))      # class labels need not start at 0
     Xu = sub(U, "unl") if U else np.zeros((0, Z.shape[1]))
     Xq_all = sub(Q, "query") if Q else None
     passI = scn.get("pass_I", scn["mode"] in ("pre", "prefile"))
@@ -250,8 +250,12 @@ def run_scenario(scn, want_events=True, twin_fin=None):
         for t in range(n):
             for j, qrow in enumerate(Q):
                 DQ[t, j] = fn(noderow(t), Xq_all[j].copy())
-    if not np.all(np.isfinite(D)) or not np.all(np.isfinite(DQ)):
+    # a query may be infinitely far from every training sample (coordinates whose squared differences overflow): +inf query
+    # distances are kept and ranked as INF; NaN anywhere, or a non-finite distance between training samples, is out of domain
+    if not np.all(np.isfinite(D)) or np.any(np.isnan(DQ)) or np.any(DQ == -np.inf) or (np.any(np.isinf(DQ)) and not scn.get("allow_inf_queries")):
         return None, ("skip", "non_finite_distance")
+    if np.any(np.isinf(DQ)):
+        DQ = np.where(np.isinf(DQ), H.FLOAT_MAX, DQ)
     if (np.any(D < 0) or np.any(DQ < 0)) and not scn.get("allow_asymmetric"):
         return None, ("skip", "negative_distance")
     if not np.array_equal(D, D.T) and not scn.get("allow_asymmetric"):
@@ -301,7 +305,7 @@ def run_scenario(scn, want_events=True, twin_fin=None):
         "n": n,
         "nl": nl,
         "W": W,
-        "L": [int(y) + 1 for y in scn["Y"]],
+        "L": [int(y) + 1 + int(scn.get("label_offset", 0)) for y in scn["Y"]],
         "ev": ev,
         "mst": mst_pred,
         "fin": {
